@@ -151,6 +151,24 @@ fn node(ctx: &mut E3Ctx, gs: &GameState, gold: bool, k: usize, left: &mut [u8; 6
             ctx.fail(None, &w, o, e);
         }
     }
+    if ctx.on(PARSE_LINK) {
+        // C15 on a setup state: the printed diagram parses to a start-of-turn state with the same board, side, move number and print
+        ctx.query = "to_string";
+        let text = gs.to_string();
+        ctx.query = "from_str";
+        let parsed = text.parse::<GameState>();
+        ctx.query = "";
+        ctx.stats.add("parse_links", 1);
+        match parsed {
+            Err(e) => ctx.fail(None, "printed setup state does not parse", e.to_string(), "Ok".into()),
+            Ok(u) => {
+                let ok = raw(u.piece_board()) == before && u.is_p1_turn_to_move() == gs.is_p1_turn_to_move() && u.move_number() == gs.move_number() && u.to_string() == text && u.as_play_phase().map_or(false, |p| p.step() == 0 && p.push_pull_state() == PushPullState::None);
+                if !ok {
+                    ctx.fail(None, "parse(print(s)) of a setup state differs from s (board / side / move number / print / start-of-turn)", u.to_string(), text);
+                }
+            }
+        }
+    }
     if ctx.on(C18) {
         ctx.stats.add("c18_states_fingerprinted_before_and_after", 1);
     }
